@@ -263,13 +263,15 @@ def classify(t) -> Dict[str, Any]:
 @st.composite
 def model_ir(draw, max_classes=6, grammar="diagram", allow_self=True, allow_ext=True, allow_type=True,
              allow_seq=True, allow_set=True, allow_self_collection=True, allow_underscore=True, require_builtin=False,
-             allow_mutual=True, extras=False, uid=False, allow_mixin=False):
+             allow_mutual=True, extras=False, uid=False, allow_mixin=False, chain_bias=False):
     """grammar: "diagram" (C17: everything) or "orm" (C06: the documented modelling rules)"""
     n = draw(st.integers(1, max_classes))
     classes = []
     for i in range(n):
         base = None
-        if i > 0 and draw(st.sampled_from([0, 0, 1, 1, 1])):
+        if chain_bias and i in (1, 2) and draw(st.booleans()):
+            base = i - 1  # C0 <- C1 <- C2: a chain of three mapped levels is frequent
+        elif i > 0 and draw(st.sampled_from([0, 0, 1, 1, 1])):
             base = draw(st.integers(0, i - 1))
         base2 = None
         if allow_mixin and base is not None and draw(st.sampled_from([0, 0, 1])):
